@@ -263,7 +263,13 @@ func (g *gpImpl) run(kv []string) string {
 		if grpc {
 			args = append(args, "--grpc=true")
 		}
-		if len(realIncs) > 0 {
+		if len(realIncs) > 1 && grpc {
+			// the flag may be repeated …
+			for _, ic := range realIncs {
+				args = append(args, "-include", ic)
+			}
+		} else if len(realIncs) > 0 {
+			// … or hold a comma-separated list
 			args = append(args, "-include", strings.Join(realIncs, ","))
 		}
 		cmd := exec.Command(g.cli, args...)
